@@ -363,6 +363,11 @@ def run(ctx, tier):
     mode_rule(ctx, I)
     run_path_rules(ctx, __name__, 'path_rules', ['G0', 'G1', 'G2', 'G3', 'G10', 'G11', 'G92', 'M999'], unroll=1)
     writers_rule(ctx)
+    from .rules_c19 import tokeniser_premise
+    tokeniser_premise(ctx)
+    from .rules_c08 import frame_premise, state_code_premise
+    frame_premise(ctx)
+    state_code_premise(ctx)
     ctx.assume('the firmware maps logical to native coordinates as logical*unit + G92 offset + M206 offset '
                '(the convention AxisPosition.logicalToNative implements); exact real arithmetic')
     ctx.assume('tracked position equals the file position (C01.R6, C08 laws); no homing/G92 XYZ/M206 inside an episode')
